@@ -120,6 +120,15 @@ func Universe(name string, size string, seed int64) []RawKey {
 		}
 		return u
 
+	case "fan64":
+		// 64 one-byte keys: a fill/drain cycle crosses 4 -> 16 -> 48 -> 256 (at 49) and back (37, 12, 3) in ~150 operations
+		var u []RawKey
+		for i := 0; i < 64; i++ {
+			u = append(u, rkb(byte(i*4+i%4)))
+		}
+		u[63] = rkb(0xff)
+		return u
+
 	case "fan18":
 		// 18 one-byte keys: short fill/drain cycles through the 4- and 16-slot classes (and just into the 48-slot one)
 		var u []RawKey
@@ -179,13 +188,16 @@ func Universe(name string, size string, seed int64) []RawKey {
 			"internationalization", "internationalisation", "internationalizations",
 			"chz", "cz", "llama", "lz",
 			"abcdefghij1", "abcdefghij2", "abcdefghijk", "abcdefghijK",
+			"caf\u00e9", "cooperate",
 		}
 		var u []RawKey
 		for _, w := range ws {
 			u = append(u, rk(w))
 		}
 		for _, w := range []string{"", "c", "int", "item", "internationali", "r", "при", "中", "zz", "á1",
-			"abcdefgzij1", "Abcdefghijk", "abcdefghij3", "intermationalization"} {
+			"abcdefgzij1", "Abcdefghijk", "abcdefghij3", "intermationalization",
+			// different strings that collate EQUAL to a stored one (decomposed accent, soft hyphen): absent keys
+			"cafe\u0301", "co\u00adoperate"} {
 			u = append(u, rp(w))
 		}
 		return u
@@ -204,7 +216,7 @@ func Universe(name string, size string, seed int64) []RawKey {
 
 	case "textq":
 		// small collation universe for closed exploration
-		ws := []string{"a", "A", "á", "ab", "Ab", "abc", "rôle", "item2", "item10"}
+		ws := []string{"a", "A", "á", "ab", "Ab", "abc", "rôle", "item2", "caf\u00e9"}
 		if thorough {
 			ws = append(ws, "b", "role", "中")
 		}
@@ -212,7 +224,11 @@ func Universe(name string, size string, seed int64) []RawKey {
 		for _, w := range ws {
 			u = append(u, rk(w))
 		}
-		for _, w := range []string{"", "ro", "item", "c"} {
+		if thorough {
+			ws = append(ws, "item10")
+		}
+		// "cafe\u0301" collates EQUAL to the stored "caf\u00e9" but is a different string: an absent key
+		for _, w := range []string{"", "ro", "item", "c", "cafe\u0301"} {
 			u = append(u, rp(w))
 		}
 		return u
